@@ -13,6 +13,7 @@
 #include "../common/factor.h"
 #include "shapes.h"
 #include <sys/prctl.h>
+#include <fcntl.h>
 #include "../mcproto/proto_model.h"
 
 #define MAXT 6
@@ -402,7 +403,7 @@ static int prop_wants(const char *sig) {
 static fres_t RES; static char SHAPE_NAME[64];
 /* K16: a first factorization (values vk, one worker, inline) followed by a RE-factorization (refact = YES, usepr = YES or NO, values VK2, P workers)
    whose every interleaving is explored; oracles for the values current at the second call (C08) */
-static int REFACT, VK2, USEPR;
+static int REFACT, VK2, USEPR, REF_INLINE, REF_OK;      /* REF_INLINE: search runs (both calls inline, no scheduler); REF_OK: did the whole history succeed */
 static void run_refactor_once(void) {
     static tmat_t T2; int n = TM.n; char msg[400];
     if (!shape_build(SHAPE_NAME, VK2, &T2) || T2.nnz != TM.nnz) die_with(3, "refactor job: second value set has another pattern");
@@ -413,9 +414,12 @@ static void run_refactor_once(void) {
     for (int i = 0; i < n; i++) { perm_r[i] = -7; perm_c[i] = i; }
     superlumt_options_t opt; memset(&opt, 0, sizeof opt); Gstat_t Gstat; SuperMatrix AC, L, U; memset(&L, 0, sizeof L); memset(&U, 0, sizeof U);
     get_perm_c(CFG.ordering, &am.A, perm_c);
+    /* user workspace (K17): both calls work in the same caller-supplied buffer, red zones around it */
+    unsigned char *wraw = NULL; void *work = NULL; long lwork = CFG.lwork;
+    if (lwork > 0) { wraw = malloc(lwork + 512); memset(wraw, 0xA5, lwork + 512); work = wraw + 256; }
     bypass = 1;
     StatAlloc(n, 1, CFG.w, CFG.relax, &Gstat); StatInit(n, 1, &Gstat);
-    FN(p,gstrf_init)(1, DOFACT, NOTRANS, NO, CFG.w, CFG.relax, CFG.u, NO, 0.0, perm_c, perm_r, NULL, 0, &am.A, &AC, &opt, &Gstat);
+    FN(p,gstrf_init)(1, DOFACT, NOTRANS, NO, CFG.w, CFG.relax, CFG.u, NO, 0.0, perm_c, perm_r, work, lwork, &am.A, &AC, &opt, &Gstat);
     pXgstrf(&opt, &AC, perm_r, &L, &U, &Gstat, &info);
     Destroy_CompCol_Permuted(&AC); StatFree(&Gstat);
     bypass = 0;
@@ -424,20 +428,23 @@ static void run_refactor_once(void) {
         for (int k = 0; k < T2.nnz; k++) { am.val[k] = L2S(T2.val[k]); am.val0[k] = am.val[k]; }
         for (int i = 0; i < n; i++) old_pr[i] = perm_r[i];
         StatAlloc(n, CFG.nprocs, CFG.w, CFG.relax, &Gstat); StatInit(n, CFG.nprocs, &Gstat);
-        FN(p,gstrf_init)(CFG.nprocs, DOFACT, NOTRANS, YES, CFG.w, CFG.relax, CFG.u, USEPR ? YES : NO, 0.0, perm_c, perm_r, NULL, 0, &am.A, &AC, &opt, &Gstat);
+        if (REF_INLINE) bypass = 1;
+        FN(p,gstrf_init)(CFG.nprocs, DOFACT, NOTRANS, YES, CFG.w, CFG.relax, CFG.u, USEPR ? YES : NO, 0.0, perm_c, perm_r, work, lwork, &am.A, &AC, &opt, &Gstat);
         pXgstrf(&opt, &AC, perm_r, &L, &U, &Gstat, &info);
-        Destroy_CompCol_Permuted(&AC); StatFree(&Gstat);
-        RES.info = (int)info;
+        Destroy_CompCol_Permuted(&AC); StatFree(&Gstat); bypass = 0;
+        RES.info = (int)info; REF_OK = (info == 0);
         static mref_t m2; static int m2_ok; if (!m2_ok) { mref_compute(&T2, &m2); m2_ok = 1; }
-        if (info != 0) { if (m2.num_nonsing && m2.cond1 < 1e6L) mon_viol("C08:info:refactor", "nonsingular values but the re-factorization returned info=%d", (int)info); }
+        if (wraw) for (int q = 0; q < 256; q++) if (wraw[q] != 0xA5 || wraw[256 + lwork + q] != 0xA5) { mon_viol("C14:lwork:redzone:refactor", "bytes outside the caller's workspace were written"); break; }
+        if (info > n && lwork > 0) { /* memory failure reported: allowed (C14) */ }
+        else if (info != 0) { if (m2.num_nonsing && m2.cond1 < 1e6L) { mon_viol("C08:info:refactor", "nonsingular values but the re-factorization returned info=%d", (int)info); if (lwork > 0) mon_viol("C14:lwork:bogus-info:refactor", "nonsingular values, memory trouble only, but info=%d (n=%d)", (int)info, n); } }
         else {
             tm_to_dense(&T2, RES.A); for (int i = 0; i < n; i++) for (int j = 0; j < n; j++) RES.A[i][j] = S2L(L2S(RES.A[i][j]));
             for (int i = 0; i < n; i++) { RES.perm_r[i] = perm_r[i]; RES.perm_c[i] = perm_c[i]; }
             RES.wf = wellformed(&L, &U, perm_r, perm_c, n, RES.Ld, RES.Ud, RES.wfmsg, sizeof RES.wfmsg);
-            if (RES.wf) { char sig[64]; snprintf(sig, sizeof sig, "C08:wellformed:code%d:refactor", RES.wf); mon_viol(sig, "%s", RES.wfmsg); snprintf(sig, sizeof sig, "C09:wellformed:code%d", RES.wf); mon_viol(sig, "%s", RES.wfmsg); }
+            if (RES.wf) { char sig[64]; snprintf(sig, sizeof sig, "C08:wellformed:code%d:refactor", RES.wf); mon_viol(sig, "%s", RES.wfmsg); snprintf(sig, sizeof sig, "C09:wellformed:code%d", RES.wf); mon_viol(sig, "%s", RES.wfmsg);  if (lwork > 0) mon_viol("C14:lwork:malformed-factors:refactor", "info=0 but the returned factors are malformed: %s", RES.wfmsg); }
             else {
                 ldc M[NMAX][NMAX]; ld ratio; permuted_A(RES.A, n, perm_r, perm_c, M);
-                if (check_lu_residual(M, RES.Ld, RES.Ud, n, &ratio, msg, sizeof msg)) { mon_viol("C08:residual:refactor", "%s", msg); mon_viol("C02:residual", "%s", msg); }
+                if (check_lu_residual(M, RES.Ld, RES.Ud, n, &ratio, msg, sizeof msg)) { mon_viol("C08:residual:refactor", "%s", msg); mon_viol("C02:residual", "%s", msg); if (lwork > 0) mon_viol("C14:lwork:wrong-factors:refactor", "info=0 but Pr A Pc != L U: %s", msg); }
                 if (check_multipliers(RES.Ld, n, CFG.u, msg, sizeof msg)) { mon_viol("C08:multiplier:refactor", "%s", msg); mon_viol("C02:multiplier", "%s", msg); }
                 const SCPformat *Ls = L.Store; const NCPformat *Us = U.Store; RES.nsuper = (int)Ls->nsuper + 1; RES.Lnnz = (int)Ls->nnz; RES.Unnz = (int)Us->nnz;
                 /* pivot reuse: when every old pivot passes the threshold for the new values the row permutation comes back unchanged */
@@ -446,7 +453,9 @@ static void run_refactor_once(void) {
             if (am_unchanged(&am)) mon_viol("C08:A-modified", "the re-factorization changed the caller's A");
         }
     }
-    if (info >= 0 && info <= n && L.Store && U.Store) { Destroy_SuperNode_SCP(&L); Destroy_CompCol_NCP(&U); }
+    if (L.Store && U.Store && lwork > 0) { SUPERLU_FREE(L.Store); SUPERLU_FREE(U.Store); }
+    else if (info >= 0 && info <= n && L.Store && U.Store) { Destroy_SuperNode_SCP(&L); Destroy_CompCol_NCP(&U); }
+    free(wraw);
     if (opt.etree) { SUPERLU_FREE(opt.etree); SUPERLU_FREE(opt.colcnt_h); SUPERLU_FREE(opt.part_super_h); }
     am_free(&am); free(perm_r); free(perm_c);
 }
@@ -600,6 +609,20 @@ int main(int argc, char **argv) {
         return X->violations ? 1 : 0;
     }
 
+    /* K17: tight estimates and a workspace just large enough for ONE worker's arrays next to L/U (first call with 1 thread), + 64*k bytes: the
+       re-factorization with P workers then runs in the window where not all workers' arrays fit */
+    { int lwrel = arg_int(argc, argv, "--lwrel", -1);
+      if (REFACT && lwrel >= 0) {
+        long *SR = mmap(NULL, sizeof(long) * 4, PROT_READ | PROT_WRITE, MAP_SHARED | MAP_ANONYMOUS, -1, 0);
+#define TRIAL(F7, F8, LW) ({ fflush(NULL); pid_t pid_ = fork(); if (pid_ == 0) { int fd_ = open("/dev/null", O_WRONLY); if (fd_ >= 0) dup2(fd_, 2); in_ref_child = 1; REF_INLINE = 1; MODEL_ENABLED = 0; int P_ = CFG.nprocs; CFG.nprocs = 1; if (F7) CFG.fill7 = (F7); if (F8) CFG.fill8 = (F8); CFG.lwork = (LW); REF_OK = 0; sched_reset(); run_refactor_once(); CFG.nprocs = P_; _exit(REF_OK ? 0 : 1); } int st_; waitpid(pid_, &st_, 0); WIFEXITED(st_) && WEXITSTATUS(st_) == 0; })
+        int m7 = 0, m8 = 0; long L1 = 0;
+        for (int f = 1; f <= 150 && !m7; f++) if (TRIAL(f, 0, 1L << 20)) m7 = f;
+        for (int f = 1; f <= 150 && !m8; f++) if (TRIAL(m7, f, 1L << 20)) m8 = f;
+        if (m7 && m8) { long hi = 1024; while (!TRIAL(m7, m8, hi) && hi < (1L << 22)) hi *= 2; long lo = hi / 2; while (hi - lo > 8) { long mid = ((lo + hi) / 2) & ~7L; if (TRIAL(m7, m8, mid)) hi = mid; else lo = mid; } L1 = hi; }
+        if (!L1) { fprintf(stderr, "K17: no sufficient estimates found\n"); return 2; }
+        CFG.fill7 = m7; CFG.fill8 = m8; CFG.lwork = L1 + 64L * lwrel; (void)SR;
+        snprintf(CASE, sizeof CASE, "shape=%s vk=%d P=%d bound=%d w=%d rlx=%d ms=%d drv=%d dyn=%d rb=%d cb=%d ord=%d sym=%d u=%g lwork=%ld f7=%d f8=%d refact=%d vk2=%d usepr=%d", shape, vk, NPROC, BOUND, CFG.w, CFG.relax, CFG.maxsuper, CFG.driver, CFG.dyn, CFG.rowblk, CFG.colblk, CFG.ordering, CFG.symmetric, CFG.u, CFG.lwork, CFG.fill7, CFG.fill8, REFACT, VK2, USEPR);
+      } }
     /* reference: the same call with one thread (C06: info does not depend on thread count and schedule) */
     { fflush(NULL); pid_t pid = fork();
       if (pid == 0) { prctl(PR_SET_PDEATHSIG, SIGKILL); in_ref_child = 1; int P = CFG.nprocs; CFG.nprocs = 1; MODEL_ENABLED = 0; sched_reset(); run_factor_case(&TM, &CFG, &RES); CFG.nprocs = P; X->ref_info = RES.info; X->have_ref = 1; fflush(NULL); _exit(0); }
